@@ -49,7 +49,9 @@ TRICKY = ['endnote', 'itemsep', 'begingroup', 'endgroup', 'itemindent', 'labelse
           'section*', 'textbf*', 'label*', 'cup*', 'noindent*', 'item*', 'begin*',
           'end*', 'newcommand*', 'def*',
           # names the data model uses internally for text / groups / regions
-          'text', 'text', 'BraceGroup', 'BracketGroup', 'displaymath', 'math', 'tex']
+          'text', 'text', 'BraceGroup', 'BracketGroup', 'displaymath', 'math', 'tex',
+          # one- to three-letter names that are substrings of item / end / begin
+          'i', 't', 'e', 'm', 'it', 'em', 'te', 'tem', 'n', 'd', 'en', 'nd', 'b', 'g', 'be', 'gin']
 
 PLAIN = list('abcxyzABC0123456789') + ['hello', 'world', 'foo bar', 'lorem ipsum']
 PUNCT = list(',;:!?-+=<>"\'`@/|.&#^_~()') + ['é', '😂', 'ß', 'Ω']
@@ -204,6 +206,9 @@ class DocGen:
                 [('C', 'end', [('r', [('T', 'itemize')])]), ('T', '.')],
                 'items', 'items',
             ])
+            if body == 'items' and not cfg.weights.get('list'):
+                # a configuration without list regions has none in definitions either
+                body = [('T', '#1 y')]
             if body == 'items':
                 # a list written out inside a definition: `\begin`/`\end` are
                 # plain commands there, but every `\item` still owns what
@@ -256,6 +261,10 @@ class DocGen:
             # two textually equal arguments in a row (`\frac{\x}{\x}`)
             if self.cfg.twins and a[-1][1] and r.random() < self.cfg.twins:
                 a.append(a[-1])
+        if not env and r.random() < .015:
+            # a long run of brace groups (no limit on the number of arguments)
+            for j in range(r.randint(7, 12)):
+                a.append(('r', [('T', 'g%d' % j)] if j % 3 else []))
         return a
 
     def cross_twins(self, nodes):
